@@ -152,7 +152,7 @@ def unprotected_path(cfg, use, killers, est_edges=(), est_nodes=(), exc=True):
         nxt = []
         for n in todo:
             for d, lab in cfg.succs(n, exc):
-                if (n, lab) in est_edges:
+                if (n, lab.replace("exc:", "")) in est_edges:
                     continue
                 if d == use:
                     path = [d, n]
